@@ -189,7 +189,7 @@ def check_clamp(case, ctx):
             classes.add("tie:min=max")
         classes.add("region:" + region)
         g = got[i]
-        if (g != g or abs(Fr(g) - want) > tol) and region not in done:
+        if (not math.isfinite(g) or abs(Fr(g) - want) > tol) and region not in done:
             done.add(region)
             ctx.fail(label + "/" + region,
                      f"element {i}: x={xv!r}, min={l!r}, max={h!r}, slope={slope}, inverted_output={mode!r}: got {g!r}, "
@@ -450,7 +450,7 @@ def check_bilerp(case, ctx):
         want = (1 - a) * (1 - b) * i1 + a * (1 - b) * i2 + (1 - a) * b * i3 + a * b * i4
         tol = 8 * Fr(eps) * (1 + abs(a)) * (1 + abs(b)) * (abs(i1) + abs(i2) + abs(i3) + abs(i4)) + Fr(TINY[dtype])
         distinct = distinct or (a != b and i2 != i3 and a not in (0, 1) and b not in (0, 1))
-        if got[i] != got[i] or abs(Fr(got[i]) - want) > tol:
+        if not math.isfinite(got[i]) or abs(Fr(got[i]) - want) > tol:
             ctx.fail("C20/bilerp/value", f"element {i}: inputs {[f[i] for f in flat[:4]]} weights {flat[4][i]!r}, {flat[5][i]!r}: "
                                          f"got {got[i]!r}, formula {float(want)!r}", tol=float(tol))
             break
